@@ -12,7 +12,7 @@
 (* closing quote not taken that way ends the literal.                      *)
 (*                                                                         *)
 (* Texts:  s = <prefix><quote><body><quote><tail>  for every body over     *)
-(* {x, \, ', "} up to MaxBody characters; a body may close the literal     *)
+(* {x, \, ', ", #} up to MaxBody characters; a body may close the literal     *)
 (* early, the rest is lexed on (names, further literals).  Supported: the   *)
 (* texts Python lexes without an error token.                              *)
 (***************************************************************************)
@@ -25,7 +25,8 @@ CONSTANTS MaxBody,
 BS == "\\"
 SQ == "'"
 DQ == "\""
-BodyChars == {"x", BS, SQ, DQ}
+HASH == "#"
+BodyChars == {"x", BS, SQ, DQ, HASH}
 NameChars == {"s", "c", "x", "r"}
 Blank == " "
 EOL == "\n"
@@ -45,7 +46,8 @@ StartsAt(t, i, w) == i + Len(w) - 1 <= Len(t) /\ Sub(t, i, Len(w)) = w
 
 RECURSIVE BodiesOf(_)
 BodiesOf(n) == IF n = 0 THEN {<<>>} ELSE LET R == BodiesOf(n - 1) IN R \cup {Append(r, c) : r \in {x \in R : Len(x) = n - 1}, c \in BodyChars}
-Tails == {<<EOL>>, <<Blank, "+", Blank, "c", EOL>>, <<>>}
+\* nothing, an operand, the end of the file, a comment with a quote in it (with and without its line break)
+Tails == {<<EOL>>, <<Blank, "+", Blank, "c", EOL>>, <<>>, <<Blank, HASH, SQ, "x", EOL>>, <<HASH, DQ>>}
 Texts == {<<"s", Blank, "=", Blank>> \o Opens[k] \o b \o CloseOf(Opens[k]) \o tl :
             k \in 1..Len(Opens), b \in BodiesOf(MaxBody), tl \in Tails}
 
@@ -91,6 +93,12 @@ LexSpace ==
        /\ toks' = IF EOL \in {text[i] : i \in pos..(e - 1)} THEN Append(toks, [c |-> "newline", s |-> ""]) ELSE toks
   /\ UNCHANGED text
 
+\* a comment runs up to the line break (the comment domain is asked before the symbol and quote domains)
+LexComment ==
+  /\ At(pos) = HASH
+  /\ pos' = SpanWhile(pos, BodyChars \cup NameChars \cup {Blank, "=", "+"})
+  /\ UNCHANGED <<text, toks>>
+
 LexSymbol ==
   /\ At(pos) \in {"=", "+"}
   /\ pos' = pos + 1 /\ toks' = Append(toks, [c |-> "op", s |-> At(pos)]) /\ UNCHANGED text
@@ -113,7 +121,7 @@ LexEOF ==
   /\ toks' = IF toks # <<>> /\ toks[Len(toks)].c = "newline" THEN toks ELSE Append(toks, [c |-> "newline", s |-> ""])
   /\ UNCHANGED text
 
-Next == LexSpace \/ LexSymbol \/ LexQuote \/ LexName \/ LexStray \/ LexEOF
+Next == LexSpace \/ LexComment \/ LexSymbol \/ LexQuote \/ LexName \/ LexStray \/ LexEOF
 Spec == Init /\ [][Next]_vars
 Done == pos = Len(text) + 2
 
@@ -136,6 +144,7 @@ Ref(t, i) ==
   IF i > Len(t) THEN (IF t[Len(t)] = EOL THEN <<>> ELSE <<[c |-> "newline", s |-> ""]>>)
   ELSE LET ch == t[i] IN
     IF ch = Blank THEN Ref(t, i + 1)
+    ELSE IF ch = HASH THEN Ref(t, SpanT(t, i, BodyChars \cup NameChars \cup {Blank, "=", "+"}))
     ELSE IF ch = EOL THEN <<[c |-> "newline", s |-> ""]>> \o Ref(t, i + 1)
     ELSE IF ch \in {"=", "+"} THEN <<[c |-> "op", s |-> ch]>> \o Ref(t, i + 1)
     ELSE IF PyOpenAt(t, i) # 0 THEN
